@@ -38,7 +38,7 @@ def q(xs):
     return ", ".join('"%s"' % x for x in xs)
 
 
-def cfg_text(P, C, A, strict, noties, loads, pnat, cnat, fp, unk, mode, props=(), d1=None, d2=None, pt=2, ct=2):
+def cfg_text(P, C, A, strict, noties, loads, pnat, cnat, fp, unk, mode, props=(), d1=None, d2=None, pt=2, ct=2, bridges=("default", "b2")):
     d1 = D1_FIXED if d1 is None else d1
     d2 = D2_FIXED if d2 is None else d2
     t = ["CONSTANTS",
@@ -47,7 +47,7 @@ def cfg_text(P, C, A, strict, noties, loads, pnat, cnat, fp, unk, mode, props=()
          "  NoTies = %s" % ("TRUE" if noties else "FALSE"), "  StrictTimers = %s" % ("TRUE" if strict else "FALSE"),
          "  D1Fixed = %s" % ("TRUE" if d1 else "FALSE"), "  D2Fixed = %s" % ("TRUE" if d2 else "FALSE"),
          "  PNatSet = {%s}" % q(pnat), "  CNatSet = {%s}" % q(cnat), "  FpSet = {%s}" % q(fp),
-         "  UnknownTargets = %s" % ("TRUE" if unk else "FALSE"), "  None = None"]
+         "  UnknownTargets = %s" % ("TRUE" if unk else "FALSE"), "  Bridges = {%s}" % q(bridges), "  None = None"]
     if mode == "mc":
         t += ["SPECIFICATION Spec", "VIEW view", "INVARIANTS " + " ".join(INVARIANTS), "PROPERTIES MatchRight " + " ".join(props)]
     elif mode == "gen":
@@ -100,10 +100,14 @@ def model_check(chk, tier, only=None):
 
 def gen_configs():
     g = {}
-    g["Gen_small"] = (cfg_text(names("p", 1), names("c", 1), names("a", 1), True, True, [0, 8, 16], ALLP, ALLC, ALLF, True, "gen"), 40)
-    g["Gen_core"] = (cfg_text(names("p", 2), names("c", 2), names("a", 2), True, True, [0, 8, 16], ALLP, ALLC, ["default", "b2"], True, "gen"), 60)
-    g["Gen_match"] = (cfg_text(names("p", 3), names("c", 2), names("a", 1), True, True, [0, 8, 16, 24], ALLP, ALLC, ["default"], False, "gen"), 60)
-    g["Gen_big"] = (cfg_text(names("p", 3), names("c", 3), names("a", 3), True, True, [0, 8, 16, 24], ["unrestricted", "restricted"],
+    # self-reported client counts: any integers (the real proxy sends multiples of 8, others need not)
+    # (a TLC configuration file cannot hold negative numbers: the model uses count + 5, see to_scenario)
+    L = [0, 5, 8, 13, 20, 21, 28, 29]
+    g["Gen_small"] = (cfg_text(names("p", 1), names("c", 1), names("a", 1), True, True, L, ALLP + ["absent"], ALLC, ALLF, True, "gen"), 40)
+    g["Gen_core"] = (cfg_text(names("p", 2), names("c", 2), names("a", 2), True, True, L, ALLP, ALLC, ["default", "b2"], True, "gen"), 60)
+    g["Gen_core_b2only"] = (cfg_text(names("p", 2), names("c", 2), names("a", 2), True, True, L, ALLP, ALLC, ALLF, True, "gen", bridges=["b2"]), 60)
+    g["Gen_match"] = (cfg_text(names("p", 3), names("c", 2), names("a", 1), True, True, L, ALLP, ALLC, ["default"], False, "gen"), 60)
+    g["Gen_big"] = (cfg_text(names("p", 3), names("c", 3), names("a", 3), True, True, L, ["unrestricted", "restricted"],
                              ["restricted", "unrestricted", "absent"], ["default", "b2"], True, "gen"), 90)
     return g
 
@@ -139,7 +143,12 @@ def generate_replays(chk, counts, seed):
         for b in behs:
             steps = [s for s in b if s[0] != "Finished"]
             if steps:
-                scen.append(to_scenario(len(scen) + 1, steps, rng))
+                # model load L stands for the self-reported count L - 5 (order preserving): -5, 0, 3, 8, 15, 16, 23, 24
+                steps = [[st[0], st[1], st[2], st[3] - 5] if st[0] == "ProxyRegister" else st for st in steps]
+                sc = to_scenario(len(scen) + 1, steps, rng)
+                if name.endswith("_b2only"):
+                    sc["bridges"] = ["b2"]
+                scen.append(sc)
         chk.note("TLC -simulate %s: %d behaviours" % (name, len(behs)))
     return scen
 
@@ -159,8 +168,8 @@ def generate_herds(n, seed, first_id):
             if tick in (0, 1, 2):
                 for _ in range(rng.randint(0, k) if tick else k):
                     pn += 1
-                    nat = rng.choice(ALLP + ["unrestricted"])
-                    wave.append(["ProxyRegister", "p%d" % pn, nat, rng.choice([0, 0, 8, 16])])
+                    nat = rng.choice(ALLP + ["unrestricted", "unrestricted", "absent"])
+                    wave.append(["ProxyRegister", "p%d" % pn, nat, rng.choice([0, 0, 8, 16, 3, 15, 23, -5])])
                     registered.append("p%d" % pn)
             for _ in range(rng.randint(0, k)):
                 cn += 1
@@ -173,11 +182,15 @@ def generate_herds(n, seed, first_id):
             if wave:
                 steps.append(["Wave", wave])
             steps.append(["Tick"])
-        scen.append(to_scenario(first_id + i, steps, rng, mode="herd"))
+        sc = to_scenario(first_id + i, steps, rng, mode="herd")
+        # every third herd runs in lock-step: all goroutines waiting at hook points are released together
+        sc["barrier"] = (i % 3 == 1)
+        scen.append(sc)
     return scen
 
 
 ORDER = []     # scenario ids in execution order (shard after shard) of the last run_rig call
+CROSS = []     # shard inputs whose process died because a channel outlived its scenario (fake-clock bubble)
 STUCK = []     # (scenario id, goroutine dump, shard input) of rig processes stopped by the watchdog
 CRASHES = []   # (panic message, output tail, shard input file) of rig processes killed by a panic in broker code
 
@@ -191,18 +204,31 @@ def rig_binary(race=False):
     return _BIN[race]
 
 
-def run_rig(chk, scenarios, race=False, shards=None, tag="rig", watchdog=None):
+def run_rig(chk, scenarios, race=False, shards=None, tag="rig", watchdog=None, fresh_each=False):
     """Execute scenarios on the real broker; returns {scenario id: [events]} and raw outputs."""
     binary = rig_binary(race)
     shards = shards or min(vlib.NCPU, max(1, len(scenarios) // 50))
     d = vlib.scratch(tag)
-    parts = [scenarios[i::shards] for i in range(shards)]
+    # a shard is one broker process with one bridge-list configuration; scenarios without a
+    # configuration of their own are spread over the configurations (2/3 default + b2, 1/3 b2 only)
+    groups = {}
+    for n, s_ in enumerate(scenarios):
+        if s_.get("bridges") is None:
+            s_["bridges"] = ["b2"] if (n % 3 == 2 and not fresh_each) else ["default", "b2"]
+        groups.setdefault(tuple(s_["bridges"]), []).append(s_)
+    parts = []
+    for key, group in sorted(groups.items()):
+        k = max(1, round(shards * len(group) / max(1, len(scenarios))))
+        parts += [group[i::k] for i in range(k)]
     jobs = []
     for i, part in enumerate(parts):
         if not part:
             continue
         part = [dict(s) for s in part]
         part[0]["fresh"] = True
+        if fresh_each:
+            for s_ in part:
+                s_["fresh"] = True
         inp, outp = os.path.join(d, "in-%d.ndjson" % i), os.path.join(d, "out-%d.ndjson" % i)
         vlib.write_ndjson(inp, part)
 
@@ -213,9 +239,13 @@ def run_rig(chk, scenarios, race=False, shards=None, tag="rig", watchdog=None):
         jobs.append(job)
     by_sc = {}
     outputs = []
+    del CROSS[:]
     ORDER.clear()
-    for part in parts:
+    for n, part in enumerate(parts):
         ORDER.extend(s_["id"] for s_ in part)
+        for s_ in part:
+            BRIDGES_OF[s_["id"]] = tuple(s_["bridges"])
+            SHARD_OF[s_["id"]] = n
     for r, outp in vlib.run_parallel(jobs):
         outputs.append(r.out)
         if r.rc == 7 and os.path.exists(outp):
@@ -223,6 +253,11 @@ def run_rig(chk, scenarios, race=False, shards=None, tag="rig", watchdog=None):
             for ev in vlib.read_ndjson(outp):
                 if ev.get("ev") == "stuck":
                     STUCK.append((ev["sc"], ev["stacks"], outp.replace("out-", "in-")))
+        elif "synctest channel from outside bubble" in r.out or "from outside bubble" in r.out:
+            # an object created during an earlier scenario (with its channels) is still in use:
+            # this shard must be re-run with a new BrokerContext per scenario
+            CROSS.append(outp.replace("out-", "in-"))
+            continue
         elif r.timed_out or r.rc != 0:
             m = re.search(r"^panic: (.*)$", r.out, re.M)
             if m and re.search(r"^main\.\(\*(BrokerContext|IPC)\)|^main\.(proxyPolls|clientOffers|proxyAnswers|ampClientOffers)|container/heap", r.out, re.M) \
@@ -233,7 +268,20 @@ def run_rig(chk, scenarios, race=False, shards=None, tag="rig", watchdog=None):
                 raise vlib.Inconclusive("broker rig failed (rc=%s timeout=%s):\n%s" % (r.rc, r.timed_out, r.out[-3000:]))
         if os.path.exists(outp):
             for ev in vlib.read_ndjson(outp):
-                by_sc.setdefault(ev["sc"], []).append(ev)
+                if ev.get("ev") != "stuck":
+                    by_sc.setdefault(ev["sc"], []).append(ev)
+    if CROSS and not fresh_each:
+        redo = []
+        for inp in CROSS:
+            redo += vlib.read_ndjson(inp)
+        chk.note("%d scenarios re-run with a new BrokerContext each (broker objects outlived their scenario)" % len(redo))
+        for s_ in redo:
+            by_sc.pop(s_["id"], None)
+        order = list(ORDER)
+        more, outs2 = run_rig(chk, redo, race=race, shards=shards, tag=tag + "-fresh", watchdog=watchdog, fresh_each=True)
+        by_sc.update(more)
+        outputs += outs2
+        ORDER[:] = [i for i in order if i not in more] + [i for i in ORDER]
     return by_sc, outputs
 
 
@@ -286,10 +334,29 @@ def hang_signature(events, pending):
     return "hang:" + "+".join(sorted(set(parts)))
 
 
-def validate(chk, by_sc, locked=False, max_rounds=12):
+VALIDATORS = 8    # trace-validation JVMs run in parallel
+SHARD_OF = {}     # scenario id -> index of the shard (broker process) that executed it
+BRIDGES_OF = {}   # scenario id -> configured bridge list of the shard that executed it
+
+
+def validate(chk, by_sc, locked=False, max_rounds=12, bridges=None):
     """TLC trace validation of all scenarios in one JVM; returns a list of
     findings (scenario id, kind, detail) where kind is 'reject:<event>' or
     'inv:<Invariant>'.  Scenarios that fail are removed and the rest re-checked."""
+    if bridges is None:
+        # one TLC run per bridge-list configuration and per group of shards (shards are independent
+        # executions, each starting with a new BrokerContext), several JVMs in parallel
+        cfgs = {}
+        for sid in by_sc:
+            key = (tuple(BRIDGES_OF.get(sid, ("default", "b2"))), SHARD_OF.get(sid, 0) % VALIDATORS)
+            cfgs.setdefault(key, {})[sid] = by_sc[sid]
+        jobs = [(lambda key=key, part=part: validate(chk, part, locked=locked, max_rounds=max_rounds, bridges=list(key[0])))
+                for key, part in sorted(cfgs.items())]
+        findings, accepted = [], 0
+        for f, a in vlib.run_parallel(jobs, workers=VALIDATORS):
+            findings += f
+            accepted += a
+        return findings, accepted
     findings = []
     pos = {sid: n for n, sid in enumerate(ORDER)}
     ids = sorted(by_sc, key=lambda x: pos.get(x, x))
@@ -313,7 +380,7 @@ def validate(chk, by_sc, locked=False, max_rounds=12):
             events += evs
         P, C, A = used_names(events)
         cfg = cfg_text(P or ["p1"], C or ["c1"], A or ["a1"], False, False, [0], ALLP, ALLC, ALLF, True,
-                       "trace-locked" if locked else "trace")
+                       "trace-locked" if locked else "trace", bridges=bridges)
         trace = "\n".join(json.dumps(e, separators=(",", ":")) for e in events) + "\n"
         r = vlib.tlc(SPECDIR, "Broker_Trace", "T.cfg", workers=1, files={"T.cfg": cfg, "trace.ndjson": trace}, timeout=1800)
         chk.add_tlc(r)
@@ -359,10 +426,10 @@ def pipeline(chk, owner, tier, seed, counts=None, herds=None, do_mc=True, mc_onl
         if not model_check(chk, tier, only=mc_only):
             return
     q_ = tier == "quick"
-    counts = counts or ({"Gen_small": 150, "Gen_core": 250, "Gen_match": 150, "Gen_big": 150} if q_
-                        else {"Gen_small": 600, "Gen_core": 2500, "Gen_match": 1200, "Gen_big": 2500})
+    counts = counts or ({"Gen_small": 200, "Gen_core": 500, "Gen_core_b2only": 150, "Gen_match": 300, "Gen_big": 350} if q_
+                        else {"Gen_small": 800, "Gen_core": 4000, "Gen_core_b2only": 800, "Gen_match": 2000, "Gen_big": 4000})
     scen = generate_replays(chk, counts, seed)
-    nh = herds if herds is not None else (60 if q_ else 600)
+    nh = herds if herds is not None else (90 if q_ else 900)
     scen += generate_herds(nh, seed, len(scen) + 1)
     by_id = {s["id"]: s for s in scen}
     by_sc, _ = run_rig(chk, scen, shards=shards)
